@@ -16,6 +16,10 @@ CONSTANTS
   Defect = "remove-no-rollback"
   AllowBadConfig = FALSE
   Emit = FALSE
+  Faults <- NoFaults
+  QS <- NoQ
+  Ops <- AllOps
+  Big = FALSE
 VIEW MCView
 INVARIANTS TypeOK
 PROPERTIES FailedRemoveChangesNothing
